@@ -1674,6 +1674,10 @@ class SparseVector:
         elif index.__class__ is slice:
             if index == open_slice:
                 if value is self: return
+                if vd > 1:
+                    raise IndexError(
+                        f'cannot broadcast {vd}-d array on to 1-d sparse array'
+                    )
                 dct.clear()
                 if value.__class__ is SparseVector:
                     dct.update(value.dct)
@@ -2713,6 +2717,10 @@ class SparseLogicalVector:
         elif index.__class__ is slice:
             if index == open_slice:
                 if value is self: return
+                if vd > 1:
+                    raise IndexError(
+                        f'cannot broadcast {vd}-d array on to 1-d sparse array'
+                    )
                 set.clear()
                 if vd == 0:
                     if value:
